@@ -18,7 +18,7 @@ def build(bin_step, py_step, miri_step, fuzz_step):
     S["C20"] = [bin_step("c20")]
     S["C11"] = [bin_step("c11")]
     S["C15"] = [bin_step("c11", prop="C15")]
-    S["C19"] = [bin_step("c19")]
+    S["C19"] = [bin_step("c19"), py_step("gen_rebind")]
     S["C10"] = [py_step("gen_chain")]
     S["C17"] = [py_step("gen_reject")]
     S["C18"] = [py_step("gen_parser_method")]
